@@ -315,7 +315,10 @@ static struct miter {
 	int inserted;        /* some insertion happened during its life */
 	int parked;          /* key last returned (-1 none) */
 	int parked_gone;     /* that key was removed while the iterator sits on it */
+	const char *pref;    /* NULL: full iterator; else a trie prefix iterator */
 } IT[MAXIT];
+static int prefix_second_iter;   /* iterator 1 on a trie is qb_map_pref_iter_create(M, "ab") */
+static int it_covers(int i, int k) { return !IT[i].pref || !strncmp(keyinit[k], IT[i].pref, strlen(IT[i].pref)); }
 
 /* known-finding triggers (see /verif/known_findings.json); each returns 1 if the operation about to be
    executed goes through a listed, still reproducible defect and the execution must be cut here */
@@ -353,7 +356,8 @@ static void iters_note_put(int k, int was_present)
 {
 	int i;
 	for (i = 0; i < MAXIT; i++) if (IT[i].open) {
-		IT[i].ever[k] = 1; IT[i].changed[k] = 1;
+		if (it_covers(i, k)) IT[i].ever[k] = 1;
+		IT[i].changed[k] = 1;
 		if (!was_present) IT[i].inserted = 1;
 	}
 }
@@ -369,11 +373,12 @@ static void op_iter_create(int i)
 {
 	int k;
 	memset(&IT[i], 0, sizeof IT[i]);
-	IT[i].it = qb_map_iter_create(M);
+	if (prefix_second_iter && i == 1 && mtype == TR) IT[i].pref = "ab";
+	IT[i].it = IT[i].pref ? qb_map_pref_iter_create(M, IT[i].pref) : qb_map_iter_create(M);
 	if (!IT[i].it) vp_fail("iter_create failed");
 	IT[i].open = 1; IT[i].parked = -1;
-	for (k = 0; k < NKEYS; k++) IT[i].whole[k] = IT[i].ever[k] = present[k];
-	vp_log("iter_create -> it%d", i);
+	for (k = 0; k < NKEYS; k++) IT[i].whole[k] = IT[i].ever[k] = present[k] && it_covers(i, k);
+	vp_log("%s -> it%d", IT[i].pref ? "pref_iter_create('ab')" : "iter_create", i);
 }
 static void op_iter_next(int i)
 {
@@ -389,6 +394,7 @@ static void op_iter_next(int i)
 	k = key_of(p);
 	vp_log("it%d.next = '%s'", i, k >= 0 ? kname(k) : p);
 	if (k < 0) vp_fail("%s: iterator returned unknown key '%s'", typen[mtype], p);
+	if (!it_covers(i, k)) vp_fail("%s: prefix iterator %d ('%s') returned key '%s'", typen[mtype], i, IT[i].pref, kname(k));
 	if (!IT[i].ever[k]) vp_fail("%s: iterator %d returned key '%s' which was never present during its life", typen[mtype], i, kname(k));
 	IT[i].ret[k]++;
 	if (IT[i].ret[k] > 1 && !IT[i].inserted)
